@@ -128,9 +128,9 @@ func recoveringDefer(root *ssa.Function) (*ssa.Function, bool) {
 }
 
 func runC22(c *engine.Ctx) {
-	r1 := c.Rule("R1", "every goroutine root reaching a user storage/codec call begins with a deferred recover routed through panics.PanicHandler", 4)
+	r1 := c.Rule("R1", "every goroutine root reaching a user storage/codec call begins with a deferred recover routed through panics.PanicHandler", 2)
 	r2 := c.Rule("R2", "the recovered panic becomes the traversal's completion error and the stop signal fires on every path", 1)
-	r3 := c.Rule("R3", "the configured panic callback reaches both managers, TraversalBuilder.PanicCallback and panics.MakeHandler", 6)
+	r3 := c.Rule("R3", "the configured panic callback reaches both managers, TraversalBuilder.PanicCallback and panics.MakeHandler", 3)
 
 	g := engine.BuildRootGraph(c.P)
 	sinks := c22Sinks(c)
